@@ -62,6 +62,31 @@ CHECKS = {
             "handshakes of every variant at MTU 32/60/100 with reordered datagrams must complete and obey the MTU on the wire.",
             "Fragments are assumed to partition the message (the property's quantifier); overlapping or inconsistent fragments are C08 input.",
             "DESIGN.md §4 C12"),
+    "C13": ("fault_enumeration",
+            "runtime monitoring of a real server driven by a scripted raw client on a held virtual-time network: every server "
+            "emission is attributed to the script step before it; the server's key-exchange state is read at each quiescent point",
+            "Exhaustive table: 9 server/client configurations (DTLS 1.2 cert/PSK/CID, DTLS 1.3 with and without selected_group, "
+            "CID, dual-stack servers) x 4 hello shapes x ~70 second-hello variants (cookie removed/empty/flipped/truncated/extended/"
+            "zero/stale from an earlier connection; right cookie with version, random, session id, suites, compression or any "
+            "extension edited/removed/reordered) plus scripts with repeated first hellos, seven kinds of non-hello datagrams, a "
+            "hello carrying a never-issued cookie as the first datagram, and 10-minute silences; thorough adds 30 000 PRNG scripts. "
+            "Before a hello the model calls valid was delivered the server may emit only cookie requests (alerts counted), at "
+            "most one per delivered hello, none in a step without a hello, and may hold no ephemeral key pair.",
+            "The genuine hellos come from a puppet pion client (single-fragment hellos, classical groups); 'valid' for DTLS 1.3 "
+            "follows RFC 8446 4.1.2 (key_share replaced after selected_group, padding).",
+            "DESIGN.md §4 C13"),
+    "C14": ("fault_enumeration",
+            "runtime monitoring of connection histories over shared instrumented session stores on the virtual-time network: wire "
+            "classification (abbreviated/full, offered and answered session id, randoms, alerts per sender) joined with store "
+            "snapshots, both API results, exporter output and a payload round trip",
+            "Per configuration (PSK, ECDSA, ECDSA+CID, RSA with verification, CBC without hello-verify): full handshake, then each "
+            "of 14 store manipulations / in-transit hello rewrites, the second connection also under another suite and four "
+            "connection-ID layouts and under PRNG drop/duplicate/reorder masks, then a third connection. An abbreviated handshake that "
+            "both sides complete requires equal stored secrets for the offered id, fresh randoms, fresh exporter output, CIDs as "
+            "the second handshake's hellos negotiated and flowing data; otherwise full handshake or failure on both sides; a side "
+            "that emitted an alert on the resumed session must have dropped it from its store and not offer it again.",
+            "Secrets are compared as byte strings, except that HMAC-equivalent keys (zero-extended) are not generated as a mismatch.",
+            "DESIGN.md §4 C14"),
     "C18": ("exploration",
             "runtime law monitoring of every codec: decode/re-encode/decode fixed-point, value equality, trailing-junk and "
             "truncation laws, datagram partition law, on harvested real encodings, their systematic mutations and generated values",
